@@ -69,10 +69,21 @@ def order_safe(cases_attrs, tag):
 
 
 # ------------------------------------------------------------------ shrinking
-def shrink(case, key, pool, budget=36):
-    """greedy: drop rows, clauses, leading statements while a finding with the same key persists"""
+def shrink(case, key, pool, budget=24):
+    """greedy: drop rows, clauses, leading statements while a finding with the same key persists.  Order dependence, engine
+    errors and missing columns are re-established on the engine alone (the property predicate); other keys through the model"""
     def bad(c):
         try:
+            if key.startswith("enum-fold-order"):
+                eng = pool.ex.submit(G.run_orders, c).result(timeout=600)
+                return "e1" in eng and eng["e1"]["ok"] and eng["e2"]["ok"] and any(
+                    not G.same_view(G.engine_view(eng["e1"], c, a), G.engine_view(eng["e2"], c, a)) for a, _ in c["attrs"])
+            if key.startswith(("enum-nonstring", "viral-column-not-emitted", "engine-error")):
+                eng = pool.ex.submit(G.run_orders, c).result(timeout=600)
+                return "e1" in eng and not eng["e1"]["ok"] and any(f["key"] == key for f in G.judge(c, eng, {a: [("Ok", {"d_ids": [], "d_ms": [], "d_rows": []})] * 3 for a, _ in c["attrs"]}))
+            if key.startswith("viral-column-missing"):
+                eng = pool.ex.submit(G.run_orders, c).result(timeout=600)
+                return "e1" in eng and eng["e1"]["ok"] and any(G.engine_view(eng["e1"], c, a)[0] == "missing-column" for a, _ in c["attrs"])
             (fs, _, _), = evaluate([c], pool, "c28_shr")
         except Exception:
             return False
